@@ -16,6 +16,7 @@ mod props;
 mod rng;
 mod tower;
 
+#[cfg(not(miri))]
 #[global_allocator]
 static GLOBAL: alloc::Counting = alloc::Counting;
 
@@ -30,6 +31,7 @@ fn main() {
         std::process::exit(2);
     }
     // a write beyond RLIMIT_FSIZE must come back as EFBIG, not kill the process
+    #[cfg(not(miri))]
     unsafe {
         libc::signal(libc::SIGXFSZ, libc::SIG_IGN);
     }
@@ -41,6 +43,8 @@ fn main() {
         "replay" => coord::cmd_replay(&args),
         "selftest" => coord::cmd_selftest(&args),
         "gen" => coord::cmd_gen(&args),
+        "miri-c10" => coord::cmd_miri_c10(&args),
+        "gen-miri-c10" => coord::cmd_gen_miri_c10(&args),
         other => {
             eprintln!("unknown command {}", other);
             2
